@@ -215,9 +215,11 @@ fn src_ty(t: &T) -> Option<(String, String)> {
     })
 }
 /// where a declaration stands: 0 top level, 1 inside `if true { }` at top level, 2 in a function body
-/// before its return, 3 in the function body after the return, 4 at top level after a `return 0`
+/// before its return, 3 in the function body after the return, 4 at top level after a `return 0`,
+/// 5 inside `if false { }`, 6 in the `else` of `if true`, 7 inside `while false { }` (all top level),
+/// 8 in a nested block behind the function's return, 9 inside `if false { }` in the function body
 fn to_source(p: &Prog, place: &[u8]) -> Option<(String, Vec<Vec<String>>)> {
-    let mut regions: Vec<String> = vec![String::new(); 5];
+    let mut regions: Vec<String> = vec![String::new(); 10];
     let mut shown = Vec::new();
     for (k, (n, fs)) in p.iter().enumerate() {
         let mut fl = Vec::new();
@@ -225,14 +227,24 @@ fn to_source(p: &Prog, place: &[u8]) -> Option<(String, Vec<Vec<String>>)> {
         for (i, t) in fs.iter().enumerate() { let (a, b) = src_ty(t)?; fl.push(format!("f{}: {}", i, a)); sh.push(b); }
         let decl = format!("struct {} {{ {} }}\n", sname_src(*n), fl.join(", "));
         let r = *place.get(k).unwrap_or(&0) as usize;
-        regions[r].push_str(&if r == 1 { format!("if true {{\n{}}}\n", decl) } else { decl });
+        regions[r].push_str(&match r {
+            1 => format!("if true {{\n{}}}\n", decl),
+            5 | 9 => format!("if false {{\n{}}}\n", decl),
+            6 => format!("if true {{ 1 }} else {{\n{}}}\n", decl),
+            7 => format!("while false {{\n{}}}\n", decl),
+            8 => format!("{{\n{}}}\n", decl),
+            _ => decl,
+        });
         shown.push(sh);
     }
     let mut src = String::new();
     src.push_str(&regions[0]);
     src.push_str(&regions[1]);
-    let has_fn = !regions[2].is_empty() || !regions[3].is_empty();
-    if has_fn { src.push_str(&format!("fn f() -> int {{\n{}return 1\n{}}}\n", regions[2], regions[3])); }
+    src.push_str(&regions[5]);
+    src.push_str(&regions[6]);
+    src.push_str(&regions[7]);
+    let has_fn = [2usize, 3, 8, 9].iter().any(|&r| !regions[r].is_empty());
+    if has_fn { src.push_str(&format!("fn f() -> int {{\n{}{}return 1\n{}{}}}\n", regions[2], regions[9], regions[3], regions[8])); }
     if !regions[4].is_empty() { src.push_str(&format!("return 0\n{}", regions[4])); } else { src.push_str(if has_fn { "f()\n" } else { "1\n" }); }
     Some((src, shown))
 }
@@ -316,6 +328,10 @@ fn source_stream(rng: &mut Rng, cases: u64) {
     emit_src_at(&ab, &[0, 2], "src-nested", &all);          // ... in a function body
     emit_src_at(&ab, &[0, 3], "src-after-return", &all);    // ... in a function body after its return
     emit_src_at(&ab, &[0, 4], "src-after-return", &all);    // ... at top level after `return 0`
+    for r in [5u8, 6, 7, 8, 9] { emit_src_at(&ab, &[0, r], "src-dead-branch", &all); }   // ... in code the optimizer removes
+    emit_src_at(&ab, &[2, 9], "src-dead-branch", &all);
+    let outer: Prog = vec![(1, vec![T::P("I8"), T::Struct(2), T::P("U16")]), (2, vec![T::P("I32"), T::P("I64")])];
+    emit_src_at(&outer, &[0, 5], "src-dead-branch", &all);
     // struct names that start with a non-ASCII capital letter: embedded by value, self reference, cycle
     for k in 0..8u64 {
         let u = 7101 + k;
@@ -375,8 +391,8 @@ fn source_stream(rng: &mut Rng, cases: u64) {
             }
             4 | 5 | 6 => { // declarations spread over top level, blocks, a function body, behind returns; two optimisation levels
                 shuffle(rng, &mut p);
-                let place: Vec<u8> = (0..p.len()).map(|_| *rng.pick(&[0u8, 0, 1, 2, 2, 3, 4])).collect();
-                let cls = if place.iter().any(|&r| r >= 3) { "src-after-return" } else { "src-nested" };
+                let place: Vec<u8> = (0..p.len()).map(|_| *rng.pick(&[0u8, 0, 1, 2, 2, 3, 4, 5, 6, 7, 8, 9])).collect();
+                let cls = if place.iter().any(|&r| r >= 5) { "src-dead-branch" } else if place.iter().any(|&r| r >= 3) { "src-after-return" } else { "src-nested" };
                 emit_src_at(&p, &place, cls, &[0, 2 + rng.below(2) as u32]);
             }
             _ => {
